@@ -28,6 +28,7 @@ func init() {
 		c19NilConsistency(c)
 		c19LeafAgreement(c)
 		c19Merkle(c)
+		c19OriginRule(c)
 		c19UnitComplete(c)
 		c19ValidateOrder(c)
 		// root-before-unpad
@@ -472,5 +473,40 @@ func c19Merkle(c *Ctx) {
 		}
 	} else {
 		c.und("rs-verify", "reedsolomon.RecoverData", "", "anchor not found")
+	}
+}
+
+// c19OriginRule: ValidateShardOrigin accepts a unit only (a) from the publisher itself when the local peer is the
+// designated broadcaster of that shard, or (b) from the designated broadcaster of that shard.
+func c19OriginRule(c *Ctx) {
+	p := c.P
+	f := p.Func("consensus/propeller", "Scheduler", "ValidateShardOrigin")
+	if f == nil {
+		c.und("origin-rule", "Scheduler.ValidateShardOrigin", "", "anchor not found")
+		return
+	}
+	c.saw(qname(f))
+	n := 0
+	for _, ret := range returnsOf(f) {
+		if !isNilConst(ret.Results[0]) {
+			continue
+		}
+		n++
+		d := p.mustHoldAt(ret.Ret)
+		okBase, m0 := everyDisjunctHas(d, []string{"^!", "PeerForShardIndex(", "#1 != nil)"})
+		ok := okBase
+		miss := m0
+		for _, cj := range d {
+			direct := cj.has("PeerForShardIndex(", "#0 == s.localPeerID)") && cj.has("(sender == publisher)")
+			relayed := cj.has("PeerForShardIndex(", "#0 == sender)")
+			if !direct && !relayed {
+				ok = false
+				miss = strings.Join(cj.list(), " ∧ ")
+			}
+		}
+		c.check(ok && len(d) > 0, "origin-rule", fmt.Sprintf("ValidateShardOrigin accepts #%d", n), p.Pos(posOf(ret.Ret, f)), "sender is the shard's designated broadcaster, or the publisher delivering the local peer's own shard", "a unit is accepted although its sender is neither the designated broadcaster of that shard nor the publisher handing the local peer its own shard: a publisher can push every shard to one victim, which then counts the message as widely received: "+miss)
+	}
+	if n == 0 {
+		c.und("origin-rule", "ValidateShardOrigin", p.Pos(fnPos(f)), "no accepting return found")
 	}
 }
